@@ -71,6 +71,10 @@ func main() {
 				budget = 65527 - 20
 			}
 		}
+		// one case in six aims at the 65535-byte limit itself: a single record whose last
+		// variable-length value is sized so that the message is 65500..65560 bytes long. Above the
+		// limit SendSet must refuse; whatever it does put on the wire must be well-formed.
+		nearLimit := proto == "tcp" && r.IntN(6) == 0
 		var nrec int
 		switch r.IntN(4) {
 		case 0:
@@ -83,6 +87,22 @@ func main() {
 			nrec = 100000 // as many as fit
 		}
 		recs := gen.Records(r, elems, nrec, budget)
+		target := 0
+		if nearLimit {
+			elems = append(gen.Template(r, lib.Pool, r.IntN(4)), lib.CustomElems[8]) // ... , vfString
+			rec := gen.Records(r, elems[:len(elems)-1], 1, 2000)
+			fixed := 20
+			if len(rec) == 1 {
+				for j, p := range rec[0] {
+					fixed += gen.EncLen(elems[j].Len, p)
+				}
+			} else {
+				rec = [][][]byte{{}}
+			}
+			target = 65500 + r.IntN(61)
+			str := gen.Bytes(r, target-fixed-3)
+			recs = [][][]byte{append(rec[0], str)}
+		}
 		tid := s.EP.NewTemplateID()
 		names := make([]string, len(elems))
 		for i, e := range elems {
@@ -128,6 +148,10 @@ func main() {
 			tBefore = time.Now().Unix()
 			n, err = s.EP.SendSet(dset)
 			if err != nil {
+				if target > 65535 {
+					c.Add("oversize_refused", 1)
+					return
+				}
 				if proto == "udp" && dset.GetSetLength()+16 > 9000 {
 					// datagram size limits of the kernel are not the library's; SendSet reported the failure
 					c.Add("udp_send_refused_by_kernel", 1)
@@ -135,6 +159,19 @@ func main() {
 				}
 				c.Violation(k, "send-data-error", err.Error(), desc)
 				return
+			}
+			if target > 65535 {
+				// accepted although it cannot fit one message: what is on the wire must still be one well-formed message
+				raw, _ = s.Take(n, wait)
+				if _, perr := refipfix.ParseMessage(raw); perr != nil || len(raw) > 65535 {
+					c.Violation(k, "malformed-near-limit", fmt.Sprintf("a set needing a %d-byte message was accepted and %d bytes were written that are not a well-formed message: %v", target, len(raw), perr), desc)
+				} else {
+					c.Violation(k, "oversize-accepted", fmt.Sprintf("a set needing a %d-byte message was accepted", target), desc)
+				}
+				return
+			}
+			if nearLimit {
+				c.Add("near_limit_messages", 1)
 			}
 			raw, ok = s.Take(n, wait)
 			if !ok {
